@@ -57,6 +57,8 @@ type plan struct {
 	panicAt   int             // callback invocation index that panics (-1: none)
 	eventual  bool            // after the producers: let only the periodic flush do the work, no Wait
 	midWaiter time.Duration   // >0: an extra task that calls Wait at this instant
+	sniper    int             // 0 none; 1 one Add, 2 `threshold` Adds aimed at the tick on which the idle background goroutine quits
+	sniperOff time.Duration   // offset from that tick
 }
 
 type taskRec struct {
@@ -103,9 +105,69 @@ type world struct {
 	curOp        map[int]string
 
 	tolerate map[string]bool
+	inflight map[int]bool // ids of the tasks whose Add is in flight
+	pending  []*earlyWait // Wait calls that returned early while an Add was in flight; classified when the batches are known
+
+	// what the harness can see of the background flusher (only used to aim the workload)
+	bgStartAt time.Duration // instant of the Add that started the current background goroutine
+	bgLastAt  time.Duration // instant its last callback ended (or its start)
 }
 
 func (w *world) tick() int { w.clk++; return w.clk }
+
+// earlyWait is a Wait call that returned although tasks added before it were not done,
+// while some Add call was in flight.
+type earlyWait struct {
+	msg      string
+	missed   []int
+	inflight map[int]bool
+}
+
+// failf reports a violation; early Wait returns observed before it come first.
+func (w *world) failf(class, format string, a ...any) {
+	w.settle()
+	w.r.Fail(class, format, a...)
+}
+
+// settle classifies the recorded early Wait returns (the batch a missed task went into is
+// only known once that batch has been executed) and reports them.
+//
+//   - wait-early/batch-in-handoff: the missed task sits in a batch that an Add call which is
+//     still in flight has removed from the container and is handing over to the background
+//     goroutine
+//   - wait-early/handoff-confirmation-swapped: every Add of the missed task's batch had
+//     returned - the Add that handed the batch over returned on a confirmation meant for
+//     another producer's hand-off, which is the call still in flight
+func (w *world) settle() {
+	pend := w.pending
+	w.pending = nil
+	for _, ew := range pend {
+		class := "wait-early/batch-in-handoff"
+		for _, id := range ew.missed {
+			b := w.tasks[id].batch
+			if b == nil {
+				continue
+			}
+			own := false
+			for _, m := range b.tasks {
+				if ew.inflight[m] {
+					own = true
+				}
+			}
+			if !own {
+				class = "wait-early/handoff-confirmation-swapped"
+			}
+		}
+		if w.tolerate[class] {
+			w.r.Probe("tolerated:" + class)
+			if w.r.Tracing() {
+				w.r.Logf("TOLERATED %s: %s", class, ew.msg)
+			}
+			continue
+		}
+		w.r.Fail(class, "%s", ew.msg)
+	}
+}
 
 // executor is the common face of the three variants.
 type executor interface {
@@ -149,7 +211,7 @@ type container struct {
 func (c *container) enter(what string) {
 	w := c.w
 	if w.inContainer || w.inSync {
-		w.r.Fail("container-overlap", "%s entered while another container operation / Sync function is running (the executor must serialise access to its container)", what)
+		w.failf("container-overlap", "%s entered while another container operation / Sync function is running (the executor must serialise access to its container)", what)
 	}
 	w.inContainer = true
 }
@@ -282,7 +344,23 @@ func drawPlan(t *simrt.Tape, tier string) *plan {
 	if t.Chance(1, 4) {
 		p.midWaiter = drawThink(t, iv) + drawThink(t, iv)/2 + 1
 	}
+	if t.Chance(1, 3) {
+		p.sniper = 1 + t.Intn(2)
+		p.sniperOff = []time.Duration{0, -time.Nanosecond, time.Nanosecond, -iv, iv}[t.Intn(5)]
+	}
 	return p
+}
+
+func fmtWork(ws []time.Duration) string {
+	var out []string
+	for _, d := range ws {
+		if d > 0 && d < time.Microsecond {
+			out = append(out, fmt.Sprintf("%d yields", int(d)))
+		} else {
+			out = append(out, d.String())
+		}
+	}
+	return strings.Join(out, ", ")
 }
 
 func fmtOps(p *plan, ops []op) string {
@@ -298,7 +376,7 @@ func fmtOps(p *plan, ops []op) string {
 
 func (p *plan) String() string {
 	var sb strings.Builder
-	fmt.Fprintf(&sb, "%s threshold=%d interval=%v burst=%v cbWork=%v panicAt=%d eventual=%v midWaiter=%v", vNames[p.variant], p.threshold, p.interval, p.burst, p.cbWork, p.panicAt, p.eventual, p.midWaiter)
+	fmt.Fprintf(&sb, "%s threshold=%d interval=%v burst=%v cbWork=[%s] panicAt=%d eventual=%v midWaiter=%v sniper=%d%+v", vNames[p.variant], p.threshold, p.interval, p.burst, fmtWork(p.cbWork), p.panicAt, p.eventual, p.midWaiter, p.sniper, p.sniperOff)
 	for i, ops := range p.prods {
 		fmt.Fprintf(&sb, " | P%d: %s", i, fmtOps(p, ops))
 	}
@@ -315,14 +393,14 @@ func (w *world) execute(vals []any) {
 	for _, v := range vals {
 		id, ok := v.(int)
 		if !ok || id < 0 || id >= len(w.tasks) || w.tasks[id].addInv == 0 {
-			r.Fail("phantom", "callback received %v which was never passed to Add", v)
+			w.failf("phantom", "callback received %v which was never passed to Add", v)
 			continue
 		}
 		rec := w.tasks[id]
 		b.tasks = append(b.tasks, id)
 		rec.execs++
 		if rec.execs > 1 {
-			r.Fail("duplicate", "task %d passed to the callback %d times (batch %d after batch %d)", id, rec.execs, b.id, rec.batch.id)
+			w.failf("duplicate", "task %d passed to the callback %d times (batch %d after batch %d)", id, rec.execs, b.id, rec.batch.id)
 			continue
 		}
 		rec.batch = b
@@ -343,6 +421,9 @@ func (w *world) execute(vals []any) {
 	defer func() {
 		w.executing--
 		b.end = w.tick()
+		if !w.harnessTasks[b.byTask] {
+			w.bgLastAt = r.Elapsed()
+		}
 		if r.Tracing() {
 			r.Logf("callback #%d ends (panic=%v)", b.id, b.panicked)
 		}
@@ -369,7 +450,7 @@ func (w *world) execute(vals []any) {
 func (w *world) guard(what string, fn func()) {
 	defer func() {
 		if rec := recover(); rec != nil {
-			w.r.Fail("callback-panic-escaped", "%s panicked with %v: a panicking callback must lose only its own batch", what, rec)
+			w.failf("callback-panic-escaped", "%s panicked with %v: a panicking callback must lose only its own batch", what, rec)
 		}
 	}()
 	w.curOp[w.r.CurrentID()] = what
@@ -385,8 +466,14 @@ func (w *world) add(prod, size int) *taskRec {
 	rec.addInvAt = r.Elapsed()
 	r.Ev("add", int64(rec.id))
 	w.addsInFlight++
+	w.inflight[rec.id] = true
+	spawns := w.bgSpawns()
 	w.guard("Add", func() { w.ex.Add(rec.id, size) })
+	if w.bgSpawns() > spawns {
+		w.bgStartAt, w.bgLastAt = rec.addInvAt, rec.addInvAt
+	}
 	w.addsInFlight--
+	delete(w.inflight, rec.id)
 	rec.addRet = w.tick()
 	r.Ev("added", int64(rec.id))
 	return rec
@@ -435,23 +522,19 @@ func (w *world) wait(who string) {
 	if len(notStarted) == 0 && len(running) == 0 {
 		return
 	}
-	class := "wait-early"
-	why := ""
-	if w.addsInFlight > 0 {
-		// scenario class: while Wait ran, another Add call was between removing a full batch from
-		// the container and getting the hand-off to the background goroutine confirmed
-		class = "wait-early/add-handoff-in-flight"
-		why = fmt.Sprintf(" (%d Add call(s) in flight at that moment)", w.addsInFlight)
-	}
-	msg := fmt.Sprintf("%s: Wait invoked at event %d returned at event %d%s although tasks added before it are not done: never passed to the callback %v, callback still running %v", who, inv, ret, why, notStarted, running)
-	if w.tolerate[class] {
-		r.Probe("tolerated:" + class)
-		if r.Tracing() {
-			r.Logf("TOLERATED %s", msg)
+	msg := fmt.Sprintf("%s: Wait invoked at event %d returned at event %d although tasks added before it are not done: never passed to the callback %v, callback still running %v; Add calls in flight at that moment: %v", who, inv, ret, notStarted, running, keys(w.inflight))
+	if len(w.inflight) > 0 {
+		// scenario classes around the hand-off of a full batch from Add to the background
+		// goroutine; told apart in settle() once the batches are known
+		ew := &earlyWait{msg: msg, missed: append(append([]int{}, notStarted...), running...), inflight: map[int]bool{}}
+		for id := range w.inflight {
+			ew.inflight[id] = true
 		}
+		w.pending = append(w.pending, ew)
+		r.Probe("wait-early-with-add-in-flight")
 		return
 	}
-	r.Fail(class, "%s", msg)
+	w.failf("wait-early", "%s", msg)
 }
 
 func (w *world) sync() {
@@ -459,7 +542,7 @@ func (w *world) sync() {
 	w.guard("Sync", func() {
 		w.ex.Sync(func() {
 			if w.inContainer || w.inSync {
-				r.Fail("container-overlap", "Sync function entered while a container operation / another Sync function is running")
+				w.failf("container-overlap", "Sync function entered while a container operation / another Sync function is running")
 			}
 			w.inSync = true
 			r.Yield()
@@ -494,7 +577,7 @@ func (w *world) joinOps(d time.Duration, ts ...*simrt.Task) bool {
 	if len(stuck) > 0 && stuck[0] != "" {
 		what = strings.ToLower(stuck[0])
 	}
-	w.r.Fail(what+"-stuck", "executor call(s) %v did not return within %v of virtual time; alive: %v", stuck, d, w.r.AliveTasks())
+	w.failf(what+"-stuck", "executor call(s) %v did not return within %v of virtual time; alive: %v", stuck, d, w.r.AliveTasks())
 	return false
 }
 
@@ -529,6 +612,12 @@ func (w *world) burst() {
 			pending = nil
 			r.Probe("burst-threshold-reached")
 		}
+		if r.Cfg().StallPerMille > 0 {
+			// with injected stalls "no task runnable" does not mean that the background goroutine has
+			// got as far as it can: the exact model is only evaluated in stall-free runs
+			r.Probe("burst-unchecked-stalls")
+			continue
+		}
 		r.Quiesce()
 		if r.Failed() {
 			return
@@ -542,10 +631,10 @@ func (w *world) burst() {
 		for _, t := range w.tasks {
 			switch {
 			case expected[t.id] && t.execs == 0:
-				r.Fail("threshold-not-honoured", "after add #%d (sequential, before the first tick) tasks %v reached the threshold %d but task %d was not passed to the callback at quiescence", i, keys(expected), p.threshold, t.id)
+				w.failf("threshold-not-honoured", "after add #%d (sequential, before the first tick) tasks %v reached the threshold %d but task %d was not passed to the callback at quiescence", i, keys(expected), p.threshold, t.id)
 				return
 			case !expected[t.id] && t.execs > 0:
-				r.Fail("premature-flush", "after add #%d (sequential, before the first tick, no Flush/Wait) task %d was passed to the callback although the threshold %d was not reached (pending %v)", i, t.id, p.threshold, pending)
+				w.failf("premature-flush", "after add #%d (sequential, before the first tick, no Flush/Wait) task %d was passed to the callback although the threshold %d was not reached (pending %v)", i, t.id, p.threshold, pending)
 				return
 			}
 		}
@@ -575,7 +664,7 @@ func (w *world) unexecuted() (never, running []int) {
 
 func body(r *simrt.Run, tier string) {
 	p := drawPlan(r.Tape, tier)
-	w := &world{r: r, p: p, harnessTasks: map[int]bool{r.CurrentID(): true}, curOp: map[int]string{}, tolerate: map[string]bool{}}
+	w := &world{r: r, p: p, harnessTasks: map[int]bool{r.CurrentID(): true}, curOp: map[int]string{}, tolerate: map[string]bool{}, inflight: map[int]bool{}}
 	for _, c := range strings.Split(os.Getenv("VERIF_C11_TOLERATE"), ",") {
 		if c != "" {
 			w.tolerate[c] = true
@@ -585,8 +674,8 @@ func body(r *simrt.Run, tier string) {
 		r.Logf("plan: %s", p)
 	}
 	r.Sample(map[string]any{"executor": vNames[p.variant], "threshold": p.threshold, "interval": p.interval.String(), "burst": len(p.burst),
-		"producers": len(p.prods), "first_producer": fmtOps(p, p.prods[0]), "callback_work": fmt.Sprint(p.cbWork), "panic_at_invocation": p.panicAt,
-		"eventual_phase": p.eventual, "concurrent_waiter_at": p.midWaiter.String()})
+		"producers": len(p.prods), "first_producer": fmtOps(p, p.prods[0]), "callback_work": fmtWork(p.cbWork), "panic_at_invocation": p.panicAt,
+		"eventual_phase": p.eventual, "adds_aimed_at_quit_tick": p.sniper, "concurrent_waiter_at": p.midWaiter.String()})
 	r.Probe("variant-" + vNames[p.variant][:4])
 
 	switch p.variant {
@@ -599,6 +688,7 @@ func body(r *simrt.Run, tier string) {
 	}
 	// whatever happens, the background flusher is not a leak of the harness
 	defer r.MarkBackground(func(name string) bool { return strings.Contains(name, bgSite) })
+	defer w.settle()
 
 	const opBudget = 3 * time.Hour
 
@@ -649,6 +739,35 @@ func body(r *simrt.Run, tier string) {
 	}
 	w.raceProbes()
 
+	// ---- phase 1b (drawn): Add calls aimed at the timer tick on which the idle background
+	// goroutine decides to quit (its ticks are at start + k*interval; it quits on the first tick
+	// later than 10 intervals after its last execution)
+	if p.sniper > 0 && len(bgAlive(r)) > 0 {
+		k := (w.bgLastAt+10*p.interval-w.bgStartAt)/p.interval + 1
+		at := w.bgStartAt + k*p.interval + p.sniperOff
+		st := w.goTask("sniper", func() {
+			if d := at - r.Elapsed(); d > 0 {
+				r.Sleep(d)
+			}
+			if len(bgAlive(r)) > 0 {
+				r.Probe("add-aimed-at-quit-tick")
+			}
+			n := 1
+			if p.sniper == 2 {
+				n = p.threshold
+			}
+			for i := 0; i < n; i++ {
+				w.add(-2, 1)
+			}
+		})
+		if !w.joinOps(opBudget, st) || r.Failed() {
+			return
+		}
+		if w.bgSpawns() >= 2 {
+			r.Probe("background-quit-and-restarted")
+		}
+	}
+
 	// ---- phase 2 (drawn): no Wait, no Flush - the periodic flush (or the flush of the quitting
 	// background goroutine) alone has to get every accepted task to the callback
 	if p.eventual {
@@ -667,7 +786,7 @@ func body(r *simrt.Run, tier string) {
 		}
 		r.Probe("oracle")
 		if never, running := w.unexecuted(); len(never) > 0 || len(running) > 0 {
-			r.Fail("not-flushed-periodically", "%v after the last Add returned (no Flush/Wait outstanding) tasks are still not done: never passed to the callback %v, callback still running %v; alive: %v", budget, never, running, r.AliveTasks())
+			w.failf("not-flushed-periodically", "%v after the last Add returned (no Flush/Wait outstanding) tasks are still not done: never passed to the callback %v, callback still running %v; alive: %v", budget, never, running, r.AliveTasks())
 			return
 		}
 	}
@@ -681,10 +800,10 @@ func body(r *simrt.Run, tier string) {
 	for _, t := range w.tasks {
 		switch {
 		case t.execs == 0:
-			r.Fail("lost", "task %d (Add returned at event %d) was never passed to the callback although the final Wait returned; %d batches, panicked batches %v", t.id, t.addRet, len(w.batches), w.panicked())
+			w.failf("lost", "task %d (Add returned at event %d) was never passed to the callback although the final Wait returned; %d batches, panicked batches %v", t.id, t.addRet, len(w.batches), w.panicked())
 			return
 		case t.execs != 1:
-			r.Fail("duplicate", "task %d passed to the callback %d times", t.id, t.execs)
+			w.failf("duplicate", "task %d passed to the callback %d times", t.id, t.execs)
 			return
 		}
 	}
@@ -702,7 +821,7 @@ func body(r *simrt.Run, tier string) {
 		}
 	}
 	if total != len(w.tasks) {
-		r.Fail("multiset", "%d tasks added, %d task deliveries to the callback", len(w.tasks), total)
+		w.failf("multiset", "%d tasks added, %d task deliveries to the callback", len(w.tasks), total)
 		return
 	}
 
@@ -714,12 +833,12 @@ func body(r *simrt.Run, tier string) {
 	r.Quiesce()
 	for _, b := range w.batches[nb:] {
 		if len(b.tasks) > 0 {
-			r.Fail("late-execution", "batch %d %v executed after the final Wait had returned and nothing was added", b.id, b.tasks)
+			w.failf("late-execution", "batch %d %v executed after the final Wait had returned and nothing was added", b.id, b.tasks)
 			return
 		}
 	}
 	if w.executing > 0 {
-		r.Fail("late-execution", "%d callbacks still running long after the final Wait returned", w.executing)
+		w.failf("late-execution", "%d callbacks still running long after the final Wait returned", w.executing)
 	}
 	if len(bgAlive(r)) == 0 {
 		r.Probe("background-quit-at-end")
